@@ -671,6 +671,42 @@ impl TypeSpec {
         format!("{}{}", self.name, self.gens.args())
     }
 
+    /// a type written in terms of the generic parameters, instantiated like the values are (`Option<T>` -> `Option<u8>`)
+    pub fn inst_of(&self, src: &str) -> String {
+        let mut out = String::new();
+        let chars: Vec<char> = src.chars().collect();
+        let mut i = 0;
+        while i < chars.len() {
+            let c = chars[i];
+            if c == '\'' && i + 1 < chars.len() && (chars[i + 1].is_alphabetic() || chars[i + 1] == '_') {
+                // a lifetime (field types never contain char literals)
+                let mut j = i + 1;
+                while j < chars.len() && (chars[j].is_alphanumeric() || chars[j] == '_') {
+                    j += 1;
+                }
+                out.push_str("'static");
+                i = j;
+            } else if c.is_alphabetic() || c == '_' {
+                let st = i;
+                while i < chars.len() && (chars[i].is_alphanumeric() || chars[i] == '_') {
+                    i += 1;
+                }
+                let w: String = chars[st..i].iter().collect();
+                if let Some(t) = self.gens.types.iter().find(|t| t.name == w) {
+                    out.push_str(&t.inst);
+                } else if let Some(k) = self.gens.consts.iter().find(|k| k.name == w) {
+                    out.push_str(&k.inst);
+                } else {
+                    out.push_str(&w);
+                }
+            } else {
+                out.push(c);
+                i += 1;
+            }
+        }
+        out
+    }
+
     /// the type definition with `#[derive(Educe)]` and all attributes
     pub fn render_def(&self) -> String {
         self.render_def_with("Educe", true)
